@@ -591,6 +591,37 @@ func runDist(c Case) vh.Case {
 	return vh.Case{Coq: "(" + cfg + ", " + wire + ",\n " + vh.List(d.trace) + ")", Desc: c, Tags: tl}
 }
 
+// id table of a round-trip case: (holder -> id bytes, holders in the byte order of their ids = the order in which
+// json.Marshal writes them as object keys); empty when the case uses the default ids s<h>
+func (c Case) idtab() string {
+	if len(c.Names) == 0 && len(c.NamesX) == 0 {
+		return "([], [])"
+	}
+	var names []string
+	hs := make([]int, 0, c.Univ)
+	for h := 0; h < c.Univ; h++ {
+		names = append(names, fmt.Sprintf("(%d, %s)", h, vh.Str(c.name(h))))
+		hs = append(hs, h)
+	}
+	sort.SliceStable(hs, func(i, j int) bool { return c.name(hs[i]) < c.name(hs[j]) })
+	var ord []string
+	for _, h := range hs {
+		ord = append(ord, fmt.Sprintf("%d", h))
+	}
+	return "(" + vh.List(names) + ", " + vh.List(ord) + ")"
+}
+func (c Case) idTags(tl []string) []string {
+	if len(c.Names) > 0 || len(c.NamesX) > 0 {
+		tl = append(tl, "ids:hostile")
+	}
+	for h := 0; h < c.Univ; h++ {
+		if !utf8.ValidString(c.name(h)) {
+			return append(tl, "ids:invalid-utf8")
+		}
+	}
+	return tl
+}
+
 // ------------------------------------------------------------------------------------ bitmap round trip
 
 var defCounter int
@@ -632,7 +663,7 @@ func bitmapBattery(c Case) (coq string, ask func(a *allocator.IPAllocator) strin
 	var qs []q
 	for h := 0; h < c.Univ; h++ {
 		h := h
-		qs = append(qs, q{fmt.Sprintf("QLookup %d", h), func(a *allocator.IPAllocator) string { return pfxAns(a.Lookup(sub(h))) }})
+		qs = append(qs, q{fmt.Sprintf("QLookup %d", h), func(a *allocator.IPAllocator) string { return pfxAns(a.Lookup(c.name(h))) }})
 	}
 	addrs := []*big.Int{}
 	for i := 0; i <= n; i++ { // one past the end included
@@ -651,7 +682,7 @@ func bitmapBattery(c Case) (coq string, ask func(a *allocator.IPAllocator) strin
 				if s == "" {
 					return "BOut ONone"
 				}
-				return fmt.Sprintf("BOut (OHolder %d)", subNum(s))
+				return fmt.Sprintf("BOut (OHolder %d)", c.holderOf(s))
 			}})
 			qs = append(qs, q{fmt.Sprintf("QIsAlloc %s %d", a.String(), pl), func(al *allocator.IPAllocator) string {
 				return "BFlag " + vh.Bool(al.IsAllocated(pfx()))
@@ -666,7 +697,7 @@ func bitmapBattery(c Case) (coq string, ask func(a *allocator.IPAllocator) strin
 	qs = append(qs, q{"QPrefixLen", func(a *allocator.IPAllocator) string { return fmt.Sprintf("BNum %d", a.PrefixLength()) }})
 	qs = append(qs, q{"QList", func(a *allocator.IPAllocator) string {
 		l := a.ListAllocations()
-		sort.Slice(l, func(i, j int) bool { return subNum(l[i].SubscriberID) < subNum(l[j].SubscriberID) })
+		sort.Slice(l, func(i, j int) bool { return c.holderOf(l[i].SubscriberID) < c.holderOf(l[j].SubscriberID) })
 		var it []string
 		for _, x := range l {
 			ones, bits := 0, 0
@@ -675,7 +706,7 @@ func bitmapBattery(c Case) (coq string, ask func(a *allocator.IPAllocator) strin
 				ones, bits = x.Prefix.Mask.Size()
 				ip = intOf(x.Prefix.IP).String()
 			}
-			it = append(it, fmt.Sprintf("(%d, (%s, %d, %d))", subNum(x.SubscriberID), ip, ones, bits))
+			it = append(it, fmt.Sprintf("(%d, (%s, %d, %d))", c.holderOf(x.SubscriberID), ip, ones, bits))
 		}
 		return "BList " + vh.List(it)
 	}})
@@ -726,18 +757,18 @@ func runBitmap(c Case) vh.Case {
 		as := bigOf(o.A).String()
 		switch o.K {
 		case "alloc":
-			p, err := a.Allocate(sub(o.H))
+			p, err := a.Allocate(c.name(o.H))
 			r := perr(err)
 			if err == nil {
 				r = outPrefix(p)
 			}
 			tr = append(tr, vh.Pair(fmt.Sprintf("PB (Alloc %d)", o.H), "PBO ("+r+")"))
 		case "aspec":
-			tr = append(tr, vh.Pair(fmt.Sprintf("PB (AllocSpec %d %s %d)", o.H, as, o.PL), "PBO ("+perr(a.AllocateSpecific(sub(o.H), pfx(o)))+")"))
+			tr = append(tr, vh.Pair(fmt.Sprintf("PB (AllocSpec %d %s %d)", o.H, as, o.PL), "PBO ("+perr(a.AllocateSpecific(c.name(o.H), pfx(o)))+")"))
 		case "set":
-			tr = append(tr, vh.Pair(fmt.Sprintf("PB (SetAlloc %d %s %d)", o.H, as, o.PL), "PBO ("+perr(a.SetAllocation(sub(o.H), pfx(o)))+")"))
+			tr = append(tr, vh.Pair(fmt.Sprintf("PB (SetAlloc %d %s %d)", o.H, as, o.PL), "PBO ("+perr(a.SetAllocation(c.name(o.H), pfx(o)))+")"))
 		case "rel":
-			tr = append(tr, vh.Pair(fmt.Sprintf("PB (Release %d)", o.H), "PBO ("+perr(a.Release(sub(o.H)))+")"))
+			tr = append(tr, vh.Pair(fmt.Sprintf("PB (Release %d)", o.H), "PBO ("+perr(a.Release(c.name(o.H)))+")"))
 		case "relu":
 			tr = append(tr, vh.Pair(fmt.Sprintf("PB (ReleaseUnit %s %d)", as, o.PL), "PBO ("+perr(a.ReleasePrefix(pfx(o)))+")"))
 		case "q":
@@ -762,8 +793,9 @@ func runBitmap(c Case) vh.Case {
 		tl = append(tl, t)
 	}
 	tl = append(tl, "origin:"+c.Origin, fmt.Sprintf("units:%d", 1<<uint(c.PL-c.PPL)), fmt.Sprintf("bits:%d", c.Bits))
+	tl = c.idTags(tl)
 	sort.Strings(tl)
-	return vh.Case{Coq: fmt.Sprintf("((%d, %s, %d, %d),\n %s)", c.Bits, bigOf(c.Base).String(), c.PPL, c.PL, vh.List(tr)), Desc: c, Tags: tl, Defs: defs}
+	return vh.Case{Coq: fmt.Sprintf("((%d, %s, %d, %d), %s,\n %s)", c.Bits, bigOf(c.Base).String(), c.PPL, c.PL, c.idtab(), vh.List(tr)), Desc: c, Tags: tl, Defs: defs}
 }
 
 // ------------------------------------------------------------------------------------ epoch round trip
@@ -787,7 +819,7 @@ func runEpoch(c Case) vh.Case {
 	for h := 0; h < c.Univ; h++ {
 		h := h
 		qs = append(qs, q{fmt.Sprintf("QELookup %d", h), func(a *allocator.EpochBitmapAllocator) string {
-			ip := a.Lookup(sub(h))
+			ip := a.Lookup(c.name(h))
 			if ip == nil {
 				return "RNone"
 			}
@@ -801,7 +833,7 @@ func runEpoch(c Case) vh.Case {
 			if s == "" {
 				return "RNone"
 			}
-			return fmt.Sprintf("RHolder %d", subNum(s))
+			return fmt.Sprintf("RHolder %d", c.holderOf(s))
 		}})
 	}
 	qs = append(qs, q{"QEStats", func(a *allocator.EpochBitmapAllocator) string {
@@ -827,7 +859,7 @@ func runEpoch(c Case) vh.Case {
 		tags["op:"+o.K] = true
 		switch o.K {
 		case "alloc":
-			ip, err := a.Allocate(ctx, sub(o.H))
+			ip, err := a.Allocate(ctx, c.name(o.H))
 			r := "RErr 1"
 			if err == nil {
 				r = "RUnit " + intOf(ip).String()
@@ -835,12 +867,12 @@ func runEpoch(c Case) vh.Case {
 			tr = append(tr, vh.Pair(fmt.Sprintf("PEAlloc %d", o.H), "PEO ("+r+")"))
 		case "renew":
 			r := "ROk"
-			if err := a.Renew(ctx, sub(o.H)); err != nil {
+			if err := a.Renew(ctx, c.name(o.H)); err != nil {
 				r = fmt.Sprintf("RErr %d", errClass(err))
 			}
 			tr = append(tr, vh.Pair(fmt.Sprintf("PERenew %d", o.H), "PEO ("+r+")"))
 		case "rel":
-			a.Release(ctx, sub(o.H))
+			a.Release(ctx, c.name(o.H))
 			tr = append(tr, vh.Pair(fmt.Sprintf("PERelease %d", o.H), "PEO ROk"))
 		case "adv":
 			tr = append(tr, vh.Pair("PEAdvance", fmt.Sprintf("PEO (REpoch %d)", a.AdvanceEpoch())))
@@ -868,8 +900,9 @@ func runEpoch(c Case) vh.Case {
 		tl = append(tl, t)
 	}
 	tl = append(tl, "origin:"+c.Origin, fmt.Sprintf("pl:%d", c.PL), fmt.Sprintf("grace:%d", c.Grace))
+	tl = c.idTags(tl)
 	sort.Strings(tl)
-	return vh.Case{Coq: fmt.Sprintf("((%s, %d, %d, %d),\n %s)", base.String(), c.PPL, c.PL, c.Grace, vh.List(tr)), Desc: c, Tags: tl, Defs: []vh.Def{qdef}}
+	return vh.Case{Coq: fmt.Sprintf("((%s, %d, %d, %d), %s,\n %s)", base.String(), c.PPL, c.PL, c.Grace, c.idtab(), vh.List(tr)), Desc: c, Tags: tl, Defs: []vh.Def{qdef}}
 }
 
 // ------------------------------------------------------------------------------------ allocation store round trip
@@ -893,10 +926,10 @@ func macNum(s string) int {
 	return n
 }
 
-func srecCoq(r allocator.AllocationRecord) string {
+func srecCoq(c Case, r allocator.AllocationRecord) string {
 	var p, s int
 	fmt.Sscanf(r.PoolID, "p%d", &p)
-	s = subNum(r.SubscriberID)
+	s = c.holderOf(r.SubscriberID)
 	ones, bits := r.Prefix.Mask.Size()
 	if r.Prefix.IP.To4() != nil {
 		bits = 32
@@ -913,7 +946,7 @@ func runStore(c Case) vh.Case {
 		if o.Mac {
 			mac = fmt.Sprintf("m%d", o.H+1)
 		}
-		return allocator.AllocationRecord{SubscriberID: sub(o.H), PoolID: fmt.Sprintf("p%d", o.Pool), PoolType: poolTypes[o.Typ%len(poolTypes)],
+		return allocator.AllocationRecord{SubscriberID: c.name(o.H), PoolID: fmt.Sprintf("p%d", o.Pool), PoolType: poolTypes[o.Typ%len(poolTypes)],
 			Prefix: &net.IPNet{IP: ipOf(bigOf(o.A), o.Bits), Mask: net.CIDRMask(o.PL, o.Bits)}, MAC: mac, IAID: uint32(o.IAID)}
 	}
 	// battery: every subscriber, pool, type, every address used by the case (raw and masked), utilisation
@@ -924,7 +957,7 @@ func runStore(c Case) vh.Case {
 	recsCoq := func(l []allocator.AllocationRecord) string {
 		var it []string
 		for _, r := range l {
-			it = append(it, srecCoq(r))
+			it = append(it, srecCoq(c, r))
 		}
 		sort.Strings(it)
 		return "MRecs " + vh.List(it)
@@ -933,7 +966,7 @@ func runStore(c Case) vh.Case {
 	for h := 0; h < c.Univ; h++ {
 		h := h
 		qs = append(qs, q{fmt.Sprintf("QMBySub %d", h), func(s *allocator.MemoryAllocationStore) string {
-			l, _ := s.GetBySubscriber(ctx, sub(h))
+			l, _ := s.GetBySubscriber(ctx, c.name(h))
 			return recsCoq(l)
 		}})
 	}
@@ -975,7 +1008,7 @@ func runStore(c Case) vh.Case {
 				if err != nil || r == nil {
 					return "MOne None"
 				}
-				return "MOne (Some " + srecCoq(*r) + ")"
+				return "MOne (Some " + srecCoq(c, *r) + ")"
 			}})
 		}
 	}
@@ -1003,9 +1036,9 @@ func runStore(c Case) vh.Case {
 			if err := st.SaveAllocation(ctx, r); err != nil {
 				ret = fmt.Sprintf("RErr %d", errClass(err))
 			}
-			tr = append(tr, vh.Pair("PM (MSave "+srecCoq(r)+")", "PMO ("+ret+")"))
+			tr = append(tr, vh.Pair("PM (MSave "+srecCoq(c, r)+")", "PMO ("+ret+")"))
 		case "remove":
-			st.RemoveAllocation(ctx, fmt.Sprintf("p%d", o.Pool), sub(o.H))
+			st.RemoveAllocation(ctx, fmt.Sprintf("p%d", o.Pool), c.name(o.H))
 			tr = append(tr, vh.Pair(fmt.Sprintf("PM (MRemove %d %d)", o.Pool, o.H), "PMO ROk"))
 		case "total":
 			st.SetPoolTotal(fmt.Sprintf("p%d", o.Pool), o.Tot)
@@ -1032,8 +1065,51 @@ func runStore(c Case) vh.Case {
 		tl = append(tl, t)
 	}
 	tl = append(tl, "origin:"+c.Origin)
+	tl = c.idTags(tl)
 	sort.Strings(tl)
-	return vh.Case{Coq: vh.List(tr), Desc: c, Tags: tl, Defs: []vh.Def{qdef}}
+	return vh.Case{Coq: "(" + c.idtab() + ",\n " + vh.List(tr) + ")", Desc: c, Tags: tl, Defs: []vh.Def{qdef}}
+}
+
+// ------------------------------------------------------------------------------------ json_coerce sweep
+
+// what encoding/json makes of a Go string that travels as a JSON string (value or object key)
+func jsonString(in string) string {
+	d, err := json.Marshal(map[string]string{in: in})
+	if err != nil {
+		panic(err)
+	}
+	var m map[string]string
+	if err := json.Unmarshal(d, &m); err != nil {
+		panic(err)
+	}
+	for k, v := range m {
+		if k != v {
+			panic("key and value coerced differently")
+		}
+		return v
+	}
+	panic("empty")
+}
+
+func runJSONCoerce(c Case) vh.Case {
+	var tr []string
+	changed := 0
+	for _, x := range c.NamesX {
+		b, err := hex.DecodeString(x)
+		if err != nil {
+			panic(err)
+		}
+		out := jsonString(string(b))
+		if out != string(b) {
+			changed++
+		}
+		tr = append(tr, vh.Pair(vh.Bytes(b), vh.Str(out)))
+	}
+	tl := []string{"origin:" + c.Origin}
+	if changed > 0 {
+		tl = append(tl, "coerced:some")
+	}
+	return vh.Case{Coq: vh.List(tr), Desc: c, Tags: tl}
 }
 
 func run(c Case) (string, vh.Case) {
@@ -1046,6 +1122,8 @@ func run(c Case) (string, vh.Case) {
 		return "epoch", runEpoch(c)
 	case "store":
 		return "store", runStore(c)
+	case "jsoncoerce":
+		return "jsoncoerce", runJSONCoerce(c)
 	}
 	panic("unknown kind " + c.Kind)
 }
@@ -1055,8 +1133,8 @@ From Verif Require Import Base.Word Model.PoolMap Model.Geometry Model.PoolSpec 
 Local Open Scope N_scope.
 `
 
-var caseType = map[string]string{"dist": "dcase", "bitmap": "pbcase", "epoch": "pecase", "store": "pmcase"}
-var runFn = map[string]string{"dist": "run_dist", "bitmap": "run_rt_bitmap", "epoch": "run_rt_epoch", "store": "run_rt_store"}
+var caseType = map[string]string{"dist": "dcase", "bitmap": "pbcase", "epoch": "pecase", "store": "pmcase", "jsoncoerce": "jccase"}
+var runFn = map[string]string{"dist": "run_dist", "bitmap": "run_rt_bitmap", "epoch": "run_rt_epoch", "store": "run_rt_store", "jsoncoerce": "run_jsoncoerce"}
 
 func header(kind string) string {
 	return hdr + "Definition cases : list " + caseType[kind] + " := [\n"
@@ -1086,7 +1164,7 @@ func main() {
 		k, vc := run(c)
 		byKind[k] = append(byKind[k], vc)
 	}
-	for _, k := range []string{"dist", "bitmap", "epoch", "store"} {
+	for _, k := range []string{"dist", "bitmap", "epoch", "store", "jsoncoerce"} {
 		if len(byKind[k]) > 0 {
 			vh.Emit(cfg, "corpus_"+k, header(k), footer(k), byKind[k], nil)
 		}
